@@ -4,7 +4,9 @@
    Inputs are the consumed variates: per product interval the jump sizes (LevyProcess: model.jump_increment;
    Markov chain: grid values of the sampled state increments), the sorted jump-time offsets, the standard
    normals; np.sqrt enters as data (the list `sq` of the floats numpy returned for sqrt(dt)).
-   Follows the tree with the fix commit for F-C15-3 (fixed-date simulators cumulate the interval totals). *)
+   Follows the tree with the fix commits for F-C15-3 (fixed-date simulators cumulate the interval totals), F-C15-4
+   (chain_over_intervals: the per-interval chains are shifted by the end value of the previous intervals) and F-C15-1
+   (refine_up_to_maturity: the maturity is refined together with the jump times). *)
 From Coq Require Import ZArith QArith Qabs Bool List.
 From RV Require Import Base.QB.
 Import ListNotations.
@@ -45,9 +47,14 @@ Definition jump_times_of (tms : list Q) (offsets : list (list Q)) : list Q :=
 
 (* SimulationWithJumpTimes.simulate_jumps: np.cumsum over all increments *)
 Definition levy_jump_values (incs : list (list Q)) : list Q := cumsum (concat incs).
-(* MCSimulationWithJumpTimes.simulate_jumps: np.concatenate of the per-interval chains, each restarted
-   at the origin (F-C15-4) *)
-Definition mc_jump_values (incs : list (list Q)) : list Q := concat (map cumsum incs).
+(* MCSimulationWithJumpTimes.simulate_jumps (repaired): chain_over_intervals - each interval's chain (np.cumsum from the
+   origin) is shifted by the end value of the previous intervals; empty intervals are skipped *)
+Fixpoint chain_running (level : Q) (incs : list (list Q)) : list Q :=
+  match incs with
+  | [] => []
+  | inc :: r => let piece := map (Qplus level) (cumsum inc) in piece ++ chain_running (last piece level) r
+  end.
+Definition mc_jump_values (incs : list (list Q)) : list Q := chain_running 0 incs.
 
 (* add t = 0 and t = maturity; the last value is repeated at maturity (0 without jumps) *)
 Definition assemble_times (T : Q) (times : list Q) : list Q := 0 :: times ++ [T].
@@ -92,10 +99,15 @@ Section Finer.
     if Qle_bool T eps then (times, vals) else finer_grid fuel eps times vals.
 End Finer.
 
-(* SimulationMaximumStep.simulate_jumps + simulate_one_path: the cap is applied to the jump times only,
-   0 and the maturity are added afterwards *)
+(* refine_up_to_maturity (repaired SimulationMaximumStep.simulate_jumps): the maturity is appended with the last value
+   (0 without jumps), refined together with the jump times and removed again *)
+Definition refine_to_maturity {V : Type} (zero : V) (fuel : nat) (eps T : Q) (times : list Q) (vals : list V) : list Q * list V :=
+  let tv := build_finer_grid zero fuel eps T (times ++ [T]) (vals ++ [last vals zero]) in
+  (removelast (fst tv), removelast (snd tv)).
+
+(* ... + simulate_one_path: t = 0 and the maturity are added *)
 Definition capped_path (fuel : nat) (eps T : Q) (times vals : list Q) : list Q * list Q :=
-  let tv := match times with [] => (times, vals) | _ => build_finer_grid 0 fuel eps T times vals end in
+  let tv := refine_to_maturity 0 fuel eps T times vals in
   (assemble_times T (fst tv), assemble_values (snd tv)).
 
 (* coupled (helper.py): one list of gaps, the fine and the coarse values are inserted at the same positions *)
@@ -103,6 +115,10 @@ Definition coupled_finer_grid (fuel : nat) (eps T : Q) (times : list Q) (fine co
   : list Q * list Q * list Q :=
   let r := build_finer_grid (0, 0) fuel eps T times (combine fine coarse) in
   (fst r, map fst (snd r), map snd (snd r)).
+Definition coupled_refine_to_maturity (fuel : nat) (eps T : Q) (times : list Q) (fine coarse : list Q)
+  : list Q * list Q * list Q :=
+  let r := coupled_finer_grid fuel eps T (times ++ [T]) (fine ++ [last fine 0]) (coarse ++ [last coarse 0]) in
+  match r with (t, f, c) => (removelast t, removelast f, removelast c) end.
 
 (* ------------------------------------------------------------------ whole paths (for the correspondence) *)
 (* LevyProcess / MarkovChainProcess with fixed dates: (times, diffusion, jumps) *)
@@ -119,15 +135,15 @@ Definition jump_path (chain : bool) (cap : option Q) (fuel : nat) (T : Q) (tms :
   | Some eps => capped_path fuel eps T times vals
   end.
 
-(* coupled, jump times: the fine and coarse chains restart at the origin in every interval *)
+(* coupled, jump times: fine and coarse chains carried over the product dates (chain_over_intervals) *)
 Definition coupled_jump_path (cap : option Q) (fuel : nat) (T : Q) (tms : list Q) (offsets fincs cincs : list (list Q))
   : list Q * list Q * list Q :=
   let times := jump_times_of tms offsets in
   let fine := mc_jump_values fincs in
   let coarse := mc_jump_values cincs in
-  let '(t, f, c) := match cap, times with
-                    | Some eps, _ :: _ => coupled_finer_grid fuel eps T times fine coarse
-                    | _, _ => (times, fine, coarse)
+  let '(t, f, c) := match cap with
+                    | Some eps => coupled_refine_to_maturity fuel eps T times fine coarse
+                    | None => (times, fine, coarse)
                     end in
   (assemble_times T t, assemble_values f, assemble_values c).
 
